@@ -513,8 +513,27 @@ def gen_raw_strings(rng, pool, n):
             out.append(''.join(rng.choice(SOUP) for _ in range(rng.choice([1, 2, 3, 5, 8, 12, 16]))))
     return [x for x in out + FIXED_RAW if x]
 
+# the three regular expressions the scanner model (Model/RawScan.lean) was derived from, comments and layout removed:
+# if the source patterns change, the hand model is no longer known to describe them (fail closed)
+REGEX_PINS = {
+    'expr1_re': r"([A-Za-z_]\w*)|([(])",
+    'expr2_re': r"\s*(?:(;)|(\.\s*[A-Za-z_]\w*)|([([]))",
+    'expr3_re': "[()[\\]]|'''(?:[^\\\\]|\\\\.)*?'''|\\\"\"\"(?:[^\\\\]|\\\\.)*?\\\"\"\"|'(?:[^'\\\\]|\\\\.)*?'|\"(?:[^\"\\\\]|\\\\.)*?\"",
+}
+
+def check_regex_pins(ctx):
+    import re
+    from pony.utils import utils as pu
+    for name, pinned in REGEX_PINS.items():
+        r = getattr(pu, name, None)
+        actual = None if r is None else ''.join(re.sub(r'#.*', '', r.pattern).split())
+        ctx.case(['regex-pin', name], nontrivial=False, kind='regex-pin')
+        if actual != pinned or (r.flags & ~re.UNICODE) != re.VERBOSE:
+            ctx.divergence('pony.utils.utils.%s is not the pattern the scanner model was derived from' % name, {'regex': name}, model=pinned, impl=actual)
+
 def part_scanner(ctx, rng, pool):
     from pony.utils import parse_expr
+    check_regex_pins(ctx)
     strings = gen_raw_strings(rng, pool, ctx.scale(600, 8000))
     reqs = []
     for st in strings:
